@@ -41,11 +41,11 @@ package gts
 //@   ensures r == -1 <==> (min(s1, e1) < min(s2, e2) || (min(s1, e1) == min(s2, e2) && max(s1, e1) < max(s2, e2)))
 
 //@ func rangeWithin(s, e, l, u int) (r bool)
-//@   prop C03 C19
+//@   prop C03 C19 C10
 //@   ensures r <==> (min(l, u) <= min(s, e) && max(s, e) <= max(l, u))
 
 //@ func rangeOverlap(s, e, l, u int) (r bool)
-//@   prop C03 C19
+//@   prop C03 C19 C10
 //@   ensures r <==> (min(s, e) < max(l, u) && min(l, u) < max(s, e))
 
 // cov(l, x): residue x is denoted by the leaf location l (sites denote nothing).
@@ -1313,10 +1313,10 @@ func lemmaSliceConcat(seq Sequence, c int) Sequence {
 //@   prop C19
 //@   ensures r == (f.Key == key)
 //@ func Within$1(f Feature) (r bool)
-//@   prop C19 C03
+//@   prop C19 C03 C10
 //@   ensures r == locWithin(f.Loc, lower, upper)
 //@ func Overlap$1(f Feature) (r bool)
-//@   prop C19 C03
+//@   prop C19 C03 C10
 //@   ensures r == locOverlap(f.Loc, lower, upper)
 
 // props.go: a qualifier is a name followed by its values.
@@ -1541,42 +1541,42 @@ func lemmaSliceConcat(seq Sequence, c int) Sequence {
 //@   ite(is(l, Between), int(l.(Between)), ite(is(l, Point), int(l.(Point)) + 1, ite(is(l, Ranged), l.(Ranged).End, l.(Ambiguous).End)))
 
 //@ func LocationWithin@leaf(loc Location, lower, upper int) (r bool)
-//@   prop C19 C03
+//@   prop C19 C03 C10
 //@   requires isLeaf(loc)
 //@   ensures r <==> (min(lower, upper) <= min(spanLo(loc), spanHi(loc)) && max(spanLo(loc), spanHi(loc)) <= max(lower, upper))
 //@ func LocationWithin@complement(loc Location, lower, upper int) (r bool)
-//@   prop C19 C03
+//@   prop C19 C03 C10
 //@   requires is(loc, Complemented)
 //@   ensures r == locWithin(loc.(Complemented).Location, lower, upper)
 //@ func LocationWithin@join(loc Location, lower, upper int) (r bool)
-//@   prop C19 C03
+//@   prop C19 C03 C10
 //@   requires is(loc, Joined)
 //@   ensures r <==> (forall k in 0..len(loc.(Joined)): locWithin(loc.(Joined)[k], lower, upper))
 //@   loop 1: invariant forall k in 0..idx1: locWithin(loc.(Joined)[k], lower, upper)
 //@   loop 1: decreases len(loc.(Joined)) - idx1
 
 //@ func LocationOverlap@leaf(loc Location, lower, upper int) (r bool)
-//@   prop C19 C03
+//@   prop C19 C03 C10
 //@   requires isLeaf(loc)
 //@   ensures r <==> (min(spanLo(loc), spanHi(loc)) < max(lower, upper) && min(lower, upper) < max(spanLo(loc), spanHi(loc)))
 //@ func LocationOverlap@complement(loc Location, lower, upper int) (r bool)
-//@   prop C19 C03
+//@   prop C19 C03 C10
 //@   requires is(loc, Complemented)
 //@   ensures r == locOverlap(loc.(Complemented).Location, lower, upper)
 //@ func LocationOverlap@join(loc Location, lower, upper int) (r bool)
-//@   prop C19 C03
+//@   prop C19 C03 C10
 //@   requires is(loc, Joined)
 //@   ensures r <==> (exists k in 0..len(loc.(Joined)): locOverlap(loc.(Joined)[k], lower, upper))
 //@   loop 1: invariant forall k in 0..idx1: !locOverlap(loc.(Joined)[k], lower, upper)
 //@   loop 1: decreases len(loc.(Joined)) - idx1
 //@ func LocationWithin@order(loc Location, lower, upper int) (r bool)
-//@   prop C19 C03
+//@   prop C19 C03 C10
 //@   requires is(loc, Ordered)
 //@   ensures r <==> (forall k in 0..len(loc.(Ordered)): locWithin(loc.(Ordered)[k], lower, upper))
 //@   loop 1: invariant forall k in 0..idx1: locWithin(loc.(Ordered)[k], lower, upper)
 //@   loop 1: decreases len(loc.(Ordered)) - idx1
 //@ func LocationOverlap@order(loc Location, lower, upper int) (r bool)
-//@   prop C19 C03
+//@   prop C19 C03 C10
 //@   requires is(loc, Ordered)
 //@   ensures r <==> (exists k in 0..len(loc.(Ordered)): locOverlap(loc.(Ordered)[k], lower, upper))
 //@   loop 1: invariant forall k in 0..idx1: !locOverlap(loc.(Ordered)[k], lower, upper)
